@@ -291,3 +291,12 @@ Definition hardsphere (t eps mcv st ct sp cp : T) (g : vec6 T) (p1 p2 : particle
 Definition hs_y21n (st ct : T) (g : vec6 T) (p1 p2 : particle T) : T :=
   let '(x21, y21, z21) := hs_x21 g p1 p2 in ct * y21 + st * z21.
 End Numeric.
+
+(* ------------------------------------------------------------------------------------------
+   4. max_radius0 / max_radius1 bookkeeping of reb_simulation_add (the only writer of these fields):
+      if (pt.r>=r->max_radius0){ r->max_radius1 = r->max_radius0; r->max_radius0 = pt.r; }
+      else if (pt.r>=r->max_radius1){ r->max_radius1 = pt.r; }
+   ------------------------------------------------------------------------------------------ *)
+Definition add_radius_num {T : Type} (N : Num T) (st : T * T) (r : T) : T * T :=
+  let '(m0, m1) := st in
+  if nleb N m0 r then (r, m0) else if nleb N m1 r then (m0, r) else (m0, m1).
